@@ -121,6 +121,7 @@ class ProbeProcess(Process):
     defaults = {
         'pid': 'p', 'vars': [], 'writes': {}, 'ts': [1], 'cond': [True],
         'ts_fn': None, 'cond_fn': None, 'emit': True, 'silent': False,
+        'emit_off': [],
     }
 
     def __init__(self, parameters=None):
@@ -133,7 +134,7 @@ class ProbeProcess(Process):
     def ports_schema(self):
         return {'v': {
             var: {'_default': 0, '_updater': updater_for(var),
-                  '_emit': self.parameters['emit']}
+                  '_emit': self.parameters['emit'] and var not in self.parameters['emit_off']}
             for var in self.parameters['vars']}}
 
     @staticmethod
@@ -228,7 +229,7 @@ class DirectorProbe(ProbeProcess):
 
 class ProbeStep(Step):
     """A step that adds 1 to its own counter and records what it sees."""
-    defaults = {'pid': 's', 'vars': [], 'emit': True, 'silent': False}
+    defaults = {'pid': 's', 'vars': [], 'emit': True, 'silent': False, 'emit_off': []}
 
     def __init__(self, parameters=None):
         super().__init__(parameters)
@@ -237,7 +238,7 @@ class ProbeStep(Step):
     def ports_schema(self):
         return {'v': {
             var: {'_default': 0, '_updater': updater_for(var),
-                  '_emit': self.parameters['emit']}
+                  '_emit': self.parameters['emit'] and var not in self.parameters['emit_off']}
             for var in self.parameters['vars']}}
 
     def next_update(self, timestep, states):
